@@ -37,6 +37,14 @@ def ev(t, env):
             return (a - b) & M64
         if op in ('Mul', 'WMul'):
             return (a * b) & M64
+        if op == 'Div':
+            if b == 0:
+                raise Unevaluable(t)
+            return a // b
+        if op == 'Rem':
+            if b == 0:
+                raise Unevaluable(t)
+            return a % b
         if op == 'Eq':
             return int(a == b)
         if op == 'Ne':
